@@ -109,6 +109,19 @@ CLAIMED = {
          "lib/srv.py (real server over loopback), python monitor",
     technique="Coq proof over executable model + differential correspondence (extracted OCaml vs real lighttpd over loopback) + marker monitor",
     design="5/C03"),
+ "C04": dict(
+    text="Coq theorems over an executable model of HTTP/1.x response framing (http_response_write_prepare's Content-Length/chunked/close decision incl. HEAD, "
+         "204, 205, 304 and HTTP/1.0; the chunk framing of the first segment, http_chunk_append_* and http_chunk_close) against an RFC 9112 section 6.3/7.1 "
+         "recipient: for every meta combination and every way the body is produced the recipient finds the end of the body where the server put it, "
+         "gets exactly the produced bytes and leaves the rest of the connection untouched (chunked round-trip for all block lists), undelimited "
+         "responses close, no-body statuses carry nothing; percent-encoded control bytes never survive into the decoded path; tied by differential "
+         "correspondence against the real lighttpd (3 network backends x 3 streaming modes x injected short writes/EAGAIN/EINTR x slow and tiny-buffer "
+         "readers x pipelines) with a strict response-stream parser and byte comparison with the files on disk",
+    note="PARTIAL: header-block serialisation (h1_send_headers) and partial-write bookkeeping are covered by the correspondence and by C17's queue "
+         "theorems, not by theorems here; kernel short writes are injected by an LD_PRELOAD shim (harness/faultio.c), not enumerated; hypothesis of the "
+         "main theorem: a handler's own Content-Length is truthful; trusted: Coq kernel, extraction, lib/srv.py, python strict parser",
+    technique="Coq proof over executable model + differential correspondence (extracted OCaml vs real lighttpd over loopback, fault-injected) + strict RFC 9112 parser monitor",
+    design="5/C04"),
  "C16": dict(
     text="Coq theorems over an executable model of mod_auth.c's decision logic (rule lookup, Basic decode incl. li_base64_dec, Digest parameter scanner, "
          "parameter/realm/algorithm/uri/response-format checks, nonce timestamp window and nonce-secret recomputation, response recomputation, "
